@@ -141,7 +141,7 @@ def check_case(case):
 
 
 def make_case(rng):
-    case = gen.gen_case(rng, min_vars=1, max_vars=8, max_dom=2, palettes=("ties",), max_space=600, var_costs=False,
+    case = gen.gen_case(rng, min_vars=1, max_vars=8, max_dom=2, palettes=("ties",), max_space=600, var_costs=rng.random() < 0.3,
                         shapes=gen.SHAPES)
     if rng.random() < 0.6:
         case = rename(case, rng)
